@@ -89,6 +89,12 @@ def run(tier, seed):
     if tier != "quick":
         cfgs.append(("C06 give-up family with lookups through @inject", open(tlc.SPECS / "MC_Startup_C06b.cfg").read()))
     sub = startup.family_check(PROP, tier, seed, cfgs, "Trace_C06", {"found-published-before", "miss-opt", "waiting"}, pick, "", [], case_extra={"inject": True})
+    if sub.violations:
+        # the same pairs with explicit lookups: what fails there as well is not a difference between the decorated call and the lookup
+        exp = startup.family_check(PROP, tier, seed, cfgs, "Trace_C06", set(), pick, "", [], case_extra={"inject": False})
+        also = {v.sig for v in exp.violations}
+        rep.extra["clauses_failing_with_explicit_lookups_too (another property's business)"] = sorted(also)
+        sub.violations = [v for v in sub.violations if v.sig not in also]
     for v in sub.violations:
         v.sig = "C19:component-context:" + v.sig.split(":", 1)[1]
         v.why = "decorated call inside a component's start-up differs from the explicit lookup there: " + v.why
